@@ -162,7 +162,7 @@ sys.exit(0 if ok else 1)
 '''
 
 
-def replay_logic(w):
+def replay_logic(w, history=False):
     """native run of find_pairs with the counterexample's predicate values as stubs; True = statement holds"""
     import numpy
     import rnapolis.annotator as A
@@ -227,10 +227,46 @@ def replay_logic(w):
     def fake_torsion(a1, a2, a3, a4):
         key = tuple((x.auth.chain, x.auth.number, x.name) for x in (a1, a2, a3, a4))
         key = min(key, key[::-1])
-        return math.radians(tval.get(key, 0.0))
+        t = tval.get(key, 0.0)
+        if flip["on"]:
+            t = t - 180.0 if t > 0 else t + 180.0      # the other cis/trans class
+        return math.radians(t)
+    flip = {"on": False}
+    if not history and not w.get("_forked"):
+        # the symbolic exploration runs many structures in one process: a failure may need an earlier call (state kept between calls).
+        # The witness is evaluated alone and after a call on the same residues with every torsion in the other class, each in a forked
+        # copy of this fresh interpreter.
+        import os
+
+        def forked(h):
+            pid = os.fork()
+            if pid == 0:
+                try:
+                    os._exit(0 if replay_logic(dict(w, _forked=True), history=h) else 1)
+                except BaseException:  # noqa: BLE001
+                    os._exit(2)
+            return os.waitpid(pid, 0)[1] >> 8
+        r = forked(False)
+        if r == 2:
+            raise RuntimeError("replay crashed")
+        if r == 1:
+            return False
+        r = forked(True)
+        if r == 1:
+            print("(after an earlier call in the same process on the same residues with the other torsion class)")
+        return r != 1
     saved = (A.KDTree, A.angle_between_vectors, A.torsion_angle)
     A.KDTree, A.angle_between_vectors, A.torsion_angle = KD, fake_angle, fake_torsion
     try:
+        if history:
+            flip["on"] = True
+            earlier = []
+            for r0 in residues:
+                r1 = Residue3D(None, r0.auth, 1, r0.one_letter_name, r0.atoms)
+                r1.__dict__["base_normal_vector"] = numpy.array([0.0, 0.0, 1.0])
+                earlier.append(r1)
+            A.find_pairs(Structure3D(earlier))
+            flip["on"] = False
         bps, _, _ = A.find_pairs(Structure3D(residues))
         if w.get("repeat"):
             again, _, _ = A.find_pairs(Structure3D(residues))
